@@ -124,6 +124,8 @@ def sig_coq(sg):
 
 def first_param(c):
   shape = c.get('shape', 'fn')
+  if c.get('static'):
+    return None             # a registered staticmethod takes no self
   return None if shape in ('fn', 'wrapped_fn') else ('self' if (shape.endswith('init') or shape == 'method') else 'cls')
 
 
@@ -212,7 +214,7 @@ def ops_coq(ops):
 def case_coq(case):
   SHAPES.clear()
   for c in case['regs']:
-    SHAPES[c['sel']] = c.get('shape', 'fn')
+    SHAPES[c['sel']] = 'fn' if c.get('static') else c.get('shape', 'fn')
   for o in flatten_ops(case['ops']):
     if o[0] == 'register':
       SHAPES[o[1]['sel']] = o[1].get('shape', 'fn')
@@ -360,8 +362,9 @@ class Machine:
         env['gv_msel%d' % mi] = mc['sel']
         env['gv_mdflts%d' % mi] = md
         env['gv_reg%d' % mi] = self.gin.register(allowlist=mc.get('allow') or None, denylist=mc.get('deny') or None)
-        src += ('  @gv_reg%d\n  def %s(%s):\n    return gv_rec(gv_msel%d, locals(), gv_mdflts%d)\n' %
-                (mi, mc['sel'].split('.')[-1], ', '.join(['self'] + mp), mi, mi))
+        src += ('%s  @gv_reg%d\n  def %s(%s):\n    return gv_rec(gv_msel%d, locals(), gv_mdflts%d)\n' %
+                ('  @staticmethod\n' if mc.get('static') else '', mi, mc['sel'].split('.')[-1],
+                 ', '.join(([] if mc.get('static') else ['self']) + mp), mi, mi))
     else:   # constructed by __new__ only
       src = ('class %s(object):\n  def __new__(%s):\n    gv_l = dict(locals())\n    gv_o = object.__new__(cls)\n'
              '    gv_o._gin_ret = gv_rec(gv_sel, gv_l, gv_dflts)\n    return gv_o\n' % (name, ', '.join(['cls'] + params)))
@@ -424,7 +427,8 @@ class Machine:
       inst = object.__new__(w)                    # an instance of the configurable class, built without running __init__
       for m in methods:
         self.wrappers[m['sel']] = getattr(inst, m['sel'].split('.')[-1])
-        self.instances[m['sel']] = inst
+        if not m.get('static'):
+          self.instances[m['sel']] = inst          # (a static method is called through the instance, without self)
     elif shape.startswith('ext'):
       w = self.gin.external_configurable(fn, name, **kw)
     else:
@@ -700,6 +704,8 @@ def gen_regs(rng, n=None, lists=0.3, allow_req=True, rich=True, sels=None, shape
       for mname in rng.sample(['run', 'go'], rng.randint(1, 2)):
         sg = gen_sig(rng, allow_req, rich)
         m = {'sel': holder + '.' + mname, 'sig': sg, 'allow': [], 'deny': [], 'shape': 'method', 'holder': holder}
+        if rng.random() < 0.3:
+          m['static'] = True       # @staticmethod over @gin.register: called through an instance, receives no self
         names = sig_names(sg)
         reqd = [a for a, d in zip(sg['args'][len(sg['args']) - len(sg['defaults']):], sg['defaults']) if d == ['req']]
         reqd += [n for n, d in sg['kwonly'] if d == ['req']]
